@@ -10,5 +10,5 @@ git -C /repo worktree add -q --detach "$WT" HEAD || exit 2
 cd "$(dirname "$0")/.." && VERIF_REPO="$WT" ./check "$PID" --tier "$TIER"; RC=$?
 echo "seedtest $PID $(basename "$(dirname "$PATCH")") rc=$RC"
 git -C /repo worktree remove --force "$WT"
-rm -rf /verif/.scratch/alt_*
+
 exit $RC
